@@ -276,8 +276,8 @@ class C15(Check):
                         hist.append(('corpus', G.from_json(h)))
         for h in G.boundary_histories():
             hist.append(('boundary', h))
-        self.run_histories(ctx, c, hist, rng, generate=ctx.n(2000, 25000))
-        self.corr_detached(ctx, c, rng)
+        ctx.phase(self.run_histories, ctx, c, hist, rng, generate=ctx.n(2000, 25000))
+        ctx.phase(self.corr_detached, ctx, c, rng)
         # report the smallest failing history first
         ctx.violations.sort(key=lambda v: len(json.dumps(v['witness'], default=repr)))
         ctx.disagreements.sort(key=lambda d: len(json.dumps(d['input'], default=repr)))
@@ -584,17 +584,6 @@ class KnownRegions:
     def classify(self, op, pre_map, pre_ns, outcome, changed):
         """operation-defined regions: (operation, state before it) -> finding id"""
         k = op[0]
-        if k == 'setprefix':
-            i, q = op[1], op[2]
-            if any(j != i and p == q for j, p, u, t0 in pre_ns):
-                return 'C15-prefix-setter-collision'
-            if any(j == i and t0 != 'prefix' for j, p, u, t0 in pre_ns):
-                return 'C15-prefix-setter-seq'
-        if k == 'setns':
-            p, u = op[1], op[2]
-            same = [x for x in pre_ns if x[1] == p]
-            if same and same[-1][3] != 'prefix' and outcome.startswith('ok') and u in pre_map.values():
-                return 'C15-prefix-setter-seq'
         if k == 'insobj':
             d = dict(op[2])
             uris = set()
@@ -612,8 +601,6 @@ class KnownRegions:
             kinds = [r[1] if r[0] == 'other' else r[0] for r in op[2]]
             if 'variables' in kinds and 'ns' in kinds[kinds.index('variables'):]:
                 return 'C15-namespace-after-variables'
-        if k in ('delns', 'delrule', 'insns', 'insnstext', 'setns') and any(u == '*' for _, p, u, _ in pre_ns):
-            return 'C15-star-uri'
         return None
 
     @staticmethod
